@@ -231,7 +231,13 @@ def tls_packets(ci, conn, ep, tcp):
         s = segs[i]
         srv = s["srv"]
         base, peer = (is_, ic) if srv else (ic, is_)
-        p = LPkt(ci, "tcp", srv, s["data"], ep, (base + 1 + s["off"]) & 0xFFFFFFFF, (peer + 1 + seen[not srv]) & 0xFFFFFFFF, 0x18,
+        ackv = seen[not srv]
+        if t.get("ack_model") == "wire" and i < nseg and s["off"] >= hs_end[srv]:
+            # acknowledgement numbers as the sender put them on the wire (capture near the sender, or packets reordered by the capture
+            # itself): what the peer had sent before this segment in the ORIGINAL order - a displaced segment may then be acknowledged
+            # by a packet that is captured before it.  Default: what a receiver at the capture point has seen contiguously
+            ackv = max(ackv, sum(len(x["data"]) for x in segs[:i] if x["srv"] != srv and not x.get("redup")))
+        p = LPkt(ci, "tcp", srv, s["data"], ep, (base + 1 + s["off"]) & 0xFFFFFFFF, (peer + 1 + ackv) & 0xFFFFFFFF, 0x18,
                  "dup" if kind == "dup" else "seg")
         p.rec_span = (s["off"], s["off"] + len(s["data"]))
         ivs[srv].append(p.rec_span)
